@@ -55,7 +55,7 @@ def claims(pid, op, kind, wf):
         return wf == "illformed" or op in ("walk", "transfer_within_bad", "insert_collide") or \
             (kind == "struct" and op in ("destroy", "transfer"))
     if pid == "C10":
-        return kind == "struct" and op in ("new", "insert", "insert_collide", "bad", "destroy", "transfer", "transfer_within", "setref")
+        return kind == "struct" and op in ("new", "insert", "insert_collide", "destroy", "transfer", "transfer_within", "setref")
     if pid == "C11":
         return op == "clone" and kind in ("struct", "uid-presence")
     if pid == "C12":
